@@ -563,10 +563,15 @@ def ew(f, *arrs):
     bs = _np.broadcast_arrays(*prepared)
     out = _np.empty(bs[0].shape, dtype=object)
     for ix in _np.ndindex(*out.shape):
-        out[ix] = f(*[b[ix] for b in bs])
+        out[ix] = f(*[_py(b[ix]) for b in bs])
     if out.shape == ():
         return out[()]
     return out.view(SymArray)
+
+
+def _py(x):
+    # NumPy scalars would re-enter the ufunc machinery (np.float64.__mul__(Sym) -> __array_ufunc__ -> ...)
+    return x.item() if isinstance(x, _np.generic) else x
 
 
 def s_clip(v, lo, hi):
